@@ -9,7 +9,8 @@ Inductive op :=
 | OBAdd (it : item) | OBGet (n : Z) | OBResize (n : Z) | OBDrop (n : Z) | OBUnshift
 | OGAdd (name : Z) (it : item) | OGStart (w : Z) (sh : bool) | OGDrop (n : Z) | OGResize (w : Z) | OGGen (nl : Z)
 | OCRecv (name : Z) (it : item) | OCInit (name : Z)
-| OCUp (name : Z) (it : item).      (* kind 4: an upload through the HTTP handler *)
+| OCUp (name : Z) (it : item)       (* kind 4: an upload through the HTTP handler *)
+| OCUpIn (name seqIn tIn dur : Z).  (* kind 4: the same, number / time / shifted flag derived as the callback does *)
 
 (** [ObsHash n h]: an observation of [n] numbers given by its polynomial hash (long states) *)
 Inductive obs := ObsOk (l : list Z) | ObsHash (n h : Z) | ObsPanic (site : string).
@@ -47,6 +48,23 @@ Definition file_del (f : Z * Z) (l : list (Z * Z)) : list (Z * Z) := filter (fun
 Definition files_upload (c : chan) (name seq : Z) (files : list (Z * Z)) : list (Z * Z) :=
   let f1 := file_add (name, seq) files in
   if 0 <? ch_maxBuf c then file_del (name, u32 (seq - ch_maxBuf c)) f1 else f1.
+(** chunkParserCallback, first chunk: the outgoing number, time and isShifted of an upload with
+    mfhd number [seqIn] and baseMediaDecodeTime [tIn], from the master values the handler read
+    (tracks whose timescale is not rewritten: timeScaleIn = timeScaleOut; startNr = 0; int64 range) *)
+Definition derive_item (c : chan) (t : track) (seqIn tIn dur : Z) : res item :=
+  if negb (ch_timeShift c =? 0) || negb (ch_seqShift c =? 0) then
+    let tsIn := tr_tsOut t in
+    do r1 <- (if negb (ch_timeShift c =? 0) then
+                do t1 <- (if negb (ch_mts c =? tsIn) then go_div "upload:div" (tIn * ch_mts c) tsIn else Ok tIn);
+                do t3 <- go_div "upload:div" ((t1 + ch_timeShift c) * tsIn) (ch_mts c);
+                Ok (t3, true)
+              else Ok (tIn, false));
+    do m <- go_div "upload:div" (ch_mdur c * tsIn) (ch_mts c);
+    do q <- go_div "upload:div" (fst r1 + Z.quot m 2) m;
+    let seq := u32 q in
+    Ok (mkItem seq (fst r1) dur (snd r1 || negb (seq =? seqIn)))
+  else Ok (mkItem seqIn tIn dur false).
+
 Definition flat_files (l : list (Z * Z)) : list Z := flat_map (fun f => [fst f; snd f]) l.
 
 Definition zb (b : bool) : Z := if b then 1 else 0.
@@ -137,6 +155,15 @@ Definition step (cs : c17case) (st : mstate) (o : op) : res (mstate * list Z) :=
       let files' := files_upload c name (i_seq it) files in
       do r <- chan_received c name it;
       Ok (ML (o_chan r) files', 200 :: flat_pub (o_pub r) ++ flat_chan (c_ntracks cs) (o_chan r) ++ flat_files files')
+  | ML c files, OCUpIn name seqIn tIn dur =>
+      match find_track name (c_tracks cs) with
+      | None => Err "unknown track"
+      | Some t =>
+        do it <- derive_item c t seqIn tIn dur;
+        let files' := files_upload c name (i_seq it) files in
+        do r <- chan_received c name it;
+        Ok (ML (o_chan r) files', 200 :: flat_pub (o_pub r) ++ flat_chan (c_ntracks cs) (o_chan r) ++ flat_files files')
+      end
   | _, _ => Err "operation does not fit the kind of case"
   end.
 
